@@ -43,6 +43,9 @@ type PQ struct {
 	Ops      []Op
 	NoRecord bool
 	Prop     string // property violations of the FIFO oracle are reported under
+	armed     bool // a one-operation fault plan is active
+	firedSeen int
+	FaultRuns bool // the generator arms write faults before some Flush/Next calls
 	resizeTo int    // pending maximum size change, applied by the next Open
 	Faulty   bool   // errors from out-of-space are expected
 	full     bool   // last producer call failed (file full)
@@ -163,6 +166,15 @@ func (p *PQ) Apply(op Op) bool {
 	ok := p.apply(op)
 	if !ok && !p.NoRecord {
 		p.Ops = p.Ops[:len(p.Ops)-1]
+	}
+	if ok && p.armed && op.K != "faultarm" {
+		// the fault plan covers exactly one operation
+		if n := p.D.Fired[simdisk.FWriteErr] + p.D.Fired[simdisk.FWriteShort]; n > p.firedSeen {
+			p.firedSeen = n
+			p.E.Probe("io_fault_in_producer_call")
+		}
+		p.D.ClearFaults()
+		p.armed = false
 	}
 	if ok && p.CheckCounters && !p.E.Failed() && p.Q != nil {
 		p.checkCounters("after " + op.String())
@@ -403,6 +415,15 @@ func (p *PQ) apply(op Op) bool {
 			return false
 		}
 		p.Reopen()
+		return true
+
+	case "faultarm": // A = kind (write error / short write), B = index of the failing write call
+		if p.Q == nil || p.armed {
+			return false
+		}
+		kind := []simdisk.FaultKind{simdisk.FWriteErr, simdisk.FWriteShort}[abs(op.A)%2]
+		p.D.SetFaults([]simdisk.Fault{{Kind: kind, Nth: abs(op.B) % 64, Burst: 1}})
+		p.armed, p.Faulty = true, true
 		return true
 
 	case "resize": // A = new maximum file size in bytes
